@@ -37,11 +37,12 @@ Tol(fam) == CASE fam \in {"Normal", "Cauchy", "Gumbel", "Frechet", "SkewNormal",
 \* C01, composition layer: a derived distribution is the documented function of the crate's own primitives
 \*   ChiSquared(1) = N^2, ChiSquared(k) = Gamma(k/2, 2);  StudentT(nu) = N sqrt(nu / ChiSquared(nu));
 \*   FisherF(m, n) = (ChiSquared(m)/m) / (ChiSquared(n)/n);  Pert = min + range * Beta(1 + s(mode-min)/range, 1 + s(max-mode)/range);
+\*   SkewNormal by the cited max/min-of-two-normals construction;
 \*   Exp(lambda) = Exp1/lambda;  Gamma(1, t) = Exp(1/t);  Gamma(k<1, t) = Gamma(k+1, t) U^(1/k);  Normal(0,1) = StandardNormal
 \* Tolerance in ordinals: the reference evaluates the same real expression, possibly associated differently.
 WireTol(fam) == CASE fam \in {"ChiSquared", "Gamma(1)", "Normal(0,1)"} -> 1
                   [] fam = "Exp" -> 2
-                  [] fam \in {"StudentT", "Pert"} -> 4
+                  [] fam \in {"StudentT", "Pert", "SkewNormal"} -> 4
                   [] OTHER -> 8
 
 \* ZS: mean = m/16, std_dev = s/16, z = k/16  =>  256 * (mean + std_dev * z) = 16 m + s k   (exact in f32 and f64)
